@@ -109,6 +109,9 @@ def _E(depth):
         st.tuples(sub, S_nonzero).map(lambda t: ["div", t[0], t[1]]),
         st.tuples(binop, sub).map(lambda t: ["same", t[0], t[1]]),          # x (op) x with the SAME object twice
         st.tuples(st.sampled_from(["iadd", "isub"]), sub, sub).map(lambda t: [t[0], t[1], t[2]]),   # r = a; r += b  (a must not change)
+        # a scalar on the left of an expression that itself carries a constant: s - (e + c), s + (c - e), s - (c - e)
+        st.tuples(binop, S, binop, sub, S).map(lambda t: [t[0], t[1], [t[2], t[3], t[4]]]),
+        st.tuples(binop, S, binop, S, sub).map(lambda t: [t[0], t[1], [t[2], t[3], t[4]]]),
         sub.map(lambda a: ["sub", a, a]),
         st.tuples(psub, psub).map(lambda t: ["sub", ["mul", t[0], t[1]], ["mul", t[1], t[0]]]),  # mirrored
     )
